@@ -201,7 +201,9 @@ impl DbInner {
 	fn open(options: &Options, opening_mode: OpeningMode) -> Result<DbInner> {
 		if opening_mode == OpeningMode::Create {
 			try_io!(std::fs::create_dir_all(&options.path));
-		} else if !options.path.is_dir() {
+		} else if !options.path.is_dir() || !options.path.join("metadata").exists() {
+			// Without the metadata file there is no database here: fail before the lock file
+			// is created, so that a failed open leaves the directory as it was.
 			return Err(Error::DatabaseNotFound)
 		}
 
